@@ -98,7 +98,7 @@ def gen_kwargs(rng, valid_bias=0.85):
     if rng.random() < 0.3:
         kw["partition"] = rng.choice(["a", "b", ""])
     if rng.random() < 0.4:
-        kw["extra_args"] = {k: rng.randint(0, 2) for k in rng.sample(["x", "y", "z", "qos"], rng.randint(1, 3))}
+        kw["extra_args"] = {k: rng.randint(0, 2) for k in rng.sample(["x", "y", "z", "qos", "mem", "time", "gres", "nodes", "cpus-per-task", "partition"], rng.randint(1, 3))}   # incl. keys that ARE the option names of quantities (seeded C20-s4-B)
     if rng.random() < 0.1:
         kw["parallelization_mode"] = "internal"
     return kw
